@@ -980,3 +980,131 @@ Lemma path_info_decodes segs trail :
   decode_path_info (wire_path segs trail) = Ok (text_path segs trail) /\
   split_path_info (text_path segs trail) = segs.
 Proof. intros H1 H2. split; [exact (wire_path_decode segs trail H1)|exact (text_path_split segs trail H2)]. Qed.
+
+(* ------------------------------------------------------------------ the judged spec is what the theorems say *)
+(* [spec_obs] (extracted, used by the harness to judge the implementation) never
+   demands anything the model of the repaired code does not deliver -- outside
+   the scheme-like class for the two relative lookups *)
+Definition meets (i : nat) (mv sv : val) : Prop :=
+  if Nat.eqb i 8 then exists u, mv = put_rurl u /\ sv = VL [VI 7; VT (ru_vp u)] else mv = sv.
+
+Lemma resource_path_good root a names_a : good_resource root a = Some names_a ->
+  resource_path root a [] = Val (slash :: qpath names_a).
+Proof.
+  intros Hg. destruct (good_resource_spec _ _ _ Hg) as (Hn & Hp & _).
+  unfold resource_path, resource_path_tuple, names_of. rewrite Hn. cbn [xbind].
+  rewrite path_list_eq, app_nil_r, jpt_abs by (apply plain_valid; assumption). reflexivity.
+Qed.
+
+Theorem spec_obs_sound c i sv :
+  nth_error (spec_obs c) i = Some sv -> sv <> none_val ->
+  (i = 4 \/ i = 6 -> scheme_like (c_rel c) = false) ->
+  exists mv, nth_error (model_obs UrlTupleCompare c) i = Some mv /\ meets i mv sv.
+Proof.
+  intros Hs Hne Hsch. unfold spec_obs in Hs.
+  set (root := c_tree c) in *. set (r := c_r c) in *. set (a := c_a c) in *.
+  destruct i as [|[|[|[|[|[|[|[|[|[|[|[|[|i]]]]]]]]]]]]];
+    cbn [nth_error] in Hs; try (destruct i; discriminate);
+    injection Hs as <-; unfold meets; cbn [Nat.eqb nth_error model_obs];
+    fold root r a; try congruence.
+  - (* 2 *) destruct (good_resource root r) as [names|] eqn:Hg; [|congruence].
+    eexists. split; [reflexivity|]. rewrite (find_path_tuple root r a names Hg). reflexivity.
+  - (* 3 *) destruct (good_resource root r) as [names|] eqn:Hg; [|congruence].
+    eexists. split; [reflexivity|]. rewrite (find_path_string root r a names Hg). reflexivity.
+  - (* 4 *) destruct (good_resource root a) as [names_a|] eqn:Hg; [|congruence].
+    destruct (forallb admissible (c_rel c)) eqn:Hp; [|congruence].
+    destruct (relative_absolute_agree root a r names_a (c_rel c) Hg Hp (Hsch (or_introl eq_refl))) as (f & Hf & H1 & _).
+    rewrite Hf. eexists. split; [reflexivity|]. rewrite H1. reflexivity.
+  - (* 5 *) destruct (good_resource root a) as [names_a|] eqn:Hg; [|congruence].
+    destruct (forallb admissible (c_rel c)) eqn:Hp; [|congruence].
+    destruct (absolute_lookup root a r names_a (c_rel c) Hg Hp) as (f & Hf & H2).
+    rewrite Hf. eexists. split; [reflexivity|]. rewrite H2. reflexivity.
+  - (* 6 *) destruct (text_eqb (c_rel_str c) (join [slash] (map q (c_rel c)))) eqn:Hc; [|congruence].
+    apply text_eqb_eq in Hc.
+    destruct (good_resource root a) as [names_a|] eqn:Hg; [|congruence].
+    destruct (forallb admissible (c_rel c)) eqn:Hp; [|congruence].
+    pose proof (resource_path_good root a names_a Hg) as Hra.
+    assert (Hab : exists s_abs, abs_string root a (qpath (c_rel c)) = Val s_abs).
+    { unfold abs_string. rewrite Hra. cbn [xbind]. eauto. }
+    destruct Hab as (s_abs & Hab).
+    destruct (relative_absolute_agree_str root a r names_a (c_rel c) s_abs Hg Hp (Hsch (or_intror eq_refl)) Hab)
+      as (f & Hf & H1 & _).
+    rewrite Hf. eexists. split; [reflexivity|]. rewrite Hc. change (join [slash] (map q (c_rel c))) with (qpath (c_rel c)).
+    rewrite H1. reflexivity.
+  - (* 7 *) destruct (text_eqb (c_rel_str c) (join [slash] (map q (c_rel c)))) eqn:Hc; [|congruence].
+    apply text_eqb_eq in Hc.
+    destruct (good_resource root a) as [names_a|] eqn:Hg; [|congruence].
+    destruct (forallb admissible (c_rel c)) eqn:Hp; [|congruence].
+    pose proof (resource_path_good root a names_a Hg) as Hra.
+    assert (Hab : exists s_abs, abs_string root a (qpath (c_rel c)) = Val s_abs).
+    { unfold abs_string. rewrite Hra. cbn [xbind]. eauto. }
+    destruct Hab as (s_abs & Hab).
+    destruct (absolute_lookup root a r names_a (c_rel c) Hg Hp) as (f & Hf & _).
+    rewrite Hf. eexists. split; [reflexivity|]. rewrite Hc. change (join [slash] (map q (c_rel c))) with (qpath (c_rel c)).
+    rewrite Hab. cbn [xbind].
+    destruct (scheme_like (c_rel c)) eqn:Esl.
+    + (* the absolute string needs no side condition: redo the argument through the tuple form *)
+      destruct (c_rel c) as [|s l] eqn:Erel; [discriminate|].
+      destruct (good_resource_spec _ _ _ Hg) as (Hn & Hpa & x & Hd & Hx).
+      unfold abs_string in Hab. rewrite Hra in Hab. cbn [xbind] in Hab.
+      assert (Hq : qpath (s :: l) <> []).
+      { apply qpath_cons_nonempty. pose proof (plain_nonempty _ Hp) as Hn'. inversion Hn'. assumption. }
+      destruct (qpath (s :: l)) as [|ch t] eqn:Eq; [congruence|]. injection Hab as <-. rewrite <- Eq.
+      unfold spec_lookup in Hf. rewrite Hx in Hf. injection Hf as <-.
+      pose proof (plain_valid _ Hp) as Hv. pose proof (plain_valid _ Hpa) as Hva.
+      rewrite (find_abs_str root r (qpath names_a ++ slash :: qpath (s :: l))
+                 (slash :: join [slash] names_a ++ slash :: join [slash] (s :: l)) (names_a ++ s :: l)).
+      * unfold lookup_result. rewrite descend_app, Hd. reflexivity.
+      * unfold is_ascii. simpl. rewrite forallb_app. simpl. rewrite !qpath_ascii by assumption. reflexivity.
+      * intros H. apply in_app_or in H as [H|[H|H]]; [exact (qpath_no_question _ Hva H)|discriminate|
+          exact (qpath_no_question _ Hv H)].
+      * rewrite wu_cons by (unfold slash; lia). rewrite wu_qpath by eauto.
+        rewrite wu_cons by (unfold slash; lia).
+        rewrite <- (app_nil_r (qpath (s :: l))) at 1. rewrite wu_qpath by auto. rewrite wu_nil, app_nil_r.
+        rewrite !join_encode.
+        replace (slash :: encode (join [slash] names_a) ++ slash :: encode (join [slash] (s :: l)))
+          with (encode (slash :: join [slash] names_a ++ slash :: join [slash] (s :: l))).
+        -- apply decode_path_info_encode. cbn [forallb]. rewrite forallb_app. cbn [forallb].
+           rewrite !join_valid by assumption. reflexivity.
+        -- rewrite encode_cons_ascii by (unfold slash; lia). rewrite encode_app.
+           rewrite encode_cons_ascii by (unfold slash; lia). reflexivity.
+      * change (slash :: join [slash] names_a ++ slash :: join [slash] (s :: l))
+          with ((slash :: join [slash] names_a) ++ slash :: join [slash] (s :: l)).
+        rewrite spi_app.
+        pose proof (text_path_split names_a false (plain_normal _ Hpa)) as H. unfold text_path in H.
+        rewrite app_nil_r in H. rewrite H.
+        rewrite split_join by (discriminate || (eapply Forall_impl; [|apply plain_normal; exact Hp]; intros ? (_ & _ & _ & X); exact X)).
+        rewrite resolve_normal_push by (apply plain_normal; assumption).
+        rewrite rev_app_distr, !rev_involutive. reflexivity.
+      * apply plain_app. auto.
+    + destruct (relative_absolute_agree_str root a r names_a (c_rel c) s_abs Hg Hp Esl) as (f' & Hf' & _ & H2).
+      { unfold abs_string. rewrite Hra. cbn [xbind]. unfold abs_string in Hab. rewrite Hra in Hab. exact Hab. }
+      rewrite Hf in Hf'. injection Hf' as <-. rewrite H2. reflexivity.
+  - (* 8 *) destruct (good_resource root r) as [names|] eqn:Hg; [|cbn in Hne; congruence].
+    destruct (header_segments (c_vroot c)) as [vt|] eqn:Hh; [|cbn in Hne; congruence].
+    destruct (url_virtual_path root r names (c_vroot c) vt Hg Hh) as (u & Hu & Hvp & _).
+    eexists. split; [reflexivity|]. rewrite Hu. exists u. cbn [put_out put_some]. rewrite Hvp. auto.
+  - (* 9 *) destruct (good_resource root r) as [names|] eqn:Hg; [|cbn in Hne; congruence].
+    destruct (header_segments (c_vroot c)) as [vt|] eqn:Hh; [|cbn in Hne; congruence].
+    unfold spec_suffix in *. destruct (forallb (forallb valid_scalar) (c_els c)) eqn:He; [|cbn in Hne; congruence].
+    destruct (c_app c) as [app|] eqn:Ea; [|cbn in Hne; congruence].
+    destruct (decode_path_info (c_script c)) as [d| |] eqn:Hd; try (cbn in Hne; congruence).
+    destruct (resource_url_shape root r names (c_els c) (c_vroot c) vt (c_script c) d app Hg Hh He Hd) as (H1 & _).
+    eexists. split; [reflexivity|]. rewrite H1. reflexivity.
+  - (* 10 *) destruct (good_resource root r) as [names|] eqn:Hg; [|cbn in Hne; congruence].
+    destruct (header_segments (c_vroot c)) as [vt|] eqn:Hh; [|cbn in Hne; congruence].
+    unfold spec_suffix in *. destruct (forallb (forallb valid_scalar) (c_els c)) eqn:He; [|cbn in Hne; congruence].
+    destruct (decode_path_info (c_script c)) as [d| |] eqn:Hd; try (cbn in Hne; congruence).
+    destruct (text_eqb (Percent.quote c07_script_safe (encode d)) d) eqn:Eq; [|cbn in Hne; congruence].
+    apply text_eqb_eq in Eq.
+    destruct (resource_url_shape root r names (c_els c) (c_vroot c) vt (c_script c) d [] Hg Hh He Hd) as (_ & H2).
+    eexists. split; [reflexivity|]. rewrite H2, Eq. reflexivity.
+  - (* 11 *) destruct (good_resource root r) as [names|] eqn:Hg; [|cbn in Hne; congruence].
+    destruct (header_segments (c_vroot c)) as [vt|] eqn:Hh; [|cbn in Hne; congruence].
+    destruct (inside root vt r) as [v|] eqn:Hi; [|cbn in Hne; congruence].
+    eexists. split; [reflexivity|]. rewrite (virtual_root_inverts root r names (c_vroot c) vt v Hg Hh Hi). reflexivity.
+  - (* 12 *) destruct (good_resource root r) as [names|] eqn:Hg; [|cbn in Hne; congruence].
+    destruct (header_segments (c_vroot c)) as [vt|] eqn:Hh; [|cbn in Hne; congruence].
+    destruct (inside root vt r) as [v|] eqn:Hi; [|cbn in Hne; congruence].
+    eexists. split; [reflexivity|]. rewrite (url_traverses_back root r names (c_vroot c) vt v Hg Hh Hi). reflexivity.
+Qed.
